@@ -369,8 +369,10 @@ func (i *openidHandler) validateProof(ctx context.Context, flow *Flow, request o
 	}
 
 	// given the JWT typ, the nonce is in the 'nonce' claim
-	nonce, ok := token.Get("nonce")
+	nonceRaw, _ := token.Get("nonce")
+	nonce, ok := nonceRaw.(string)
 	if !ok {
+		// absent, or not a string: the proof is signed by the (remote) wallet, so the claim's type is its choice
 		return generateProofError(openid4vci.Error{
 			Err:        errors.New("missing nonce claim"),
 			Code:       openid4vci.InvalidProof,
@@ -379,7 +381,7 @@ func (i *openidHandler) validateProof(ctx context.Context, flow *Flow, request o
 	}
 
 	// check if the nonce matches the one we sent in the offer
-	flowFromNonce, err := i.store.FindByReference(ctx, cNonceRefType, nonce.(string))
+	flowFromNonce, err := i.store.FindByReference(ctx, cNonceRefType, nonce)
 	if err != nil {
 		return err
 	}
